@@ -50,9 +50,16 @@ func init() {
 		"fmt.Sprint": {"returns some string (uninterpreted)", func(fr *frame, x *ssa.Call, a []*Term, st *state) []*Term {
 			return []*Term{{S: fr.g.fresh("sprint", "Int"), T: strT()}}
 		}},
-		"strconv.ParseInt": {"(parseIntVal(s), err) with err == nil iff parseIntOk(s); value within int64", func(fr *frame, x *ssa.Call, a []*Term, st *state) []*Term {
+		"strconv.ParseInt": {"(parseIntVal(s), err) with err == nil iff parseIntOk(s) for base 10 / 64 bits (any other base or width: the unrelated functions parseIntValB(s, base, bits) / parseIntOkB); value within int64", func(fr *frame, x *ssa.Call, a []*Term, st *state) []*Term {
 			v := fr.ufun("parseIntVal", "(Int) Int", a[0].S)
 			ok := fr.ufun("parseIntOk", "(Int) Bool", a[0].S)
+			// the decimal 64-bit vocabulary only stands for calls that really ask for base 10 and 64 bits
+			cb, okb := constUint(x.Common().Args[1])
+			cw, okw := constUint(x.Common().Args[2])
+			if !(okb && okw && cb == 10 && cw == 64) {
+				v = fr.ufun("parseIntValB", "(Int Int Int) Int", a[0].S+" "+a[1].S+" "+a[2].S)
+				ok = fr.ufun("parseIntOkB", "(Int Int Int) Bool", a[0].S+" "+a[1].S+" "+a[2].S)
+			}
 			fr.g.assert("(inS64 " + v + ")")
 			e := fr.newErr("parseint")
 			return []*Term{{S: v, T: types.Typ[types.Int64]}, {S: "(ite " + ok + " ENil " + e.S + ")", T: errT()}}
